@@ -55,8 +55,8 @@ ASSUMPTIONS = [
     "digits and rounded to float64; curvature from them by "
     "harness.ref4d.curvature in float64. EdS (no symbolic form): tensor-"
     "product 8th-order central differences of the numeric form with "
-    "h_t = t/32 (truncation ~1e-12 relative for power laws, round-off "
-    "~1e-12), unit spatial step",
+    "proper step t/32 in every direction (h_t = t/32, h_i = t/32/sqrt(g_ii); "
+    "truncation ~1e-12 relative for power laws, round-off ~1e-12)",
     "tolerances are relative to the curvature scale in diagonal-normalised "
     "components X_ab / sqrt(|g_aa g_bb|): S2 = max|dd g|, S1 = max|d g| "
     "(normalised); |Einstein residual| <= tol * cond(g_normalised) * "
@@ -509,8 +509,11 @@ def run_module(name, case, note):
             if symbolic:
                 g, dg, ddg = sym_jets(name, p, par)
             else:
-                g, dg, ddg = fd_jets(numeric_g4(mod), p,
-                                     (t / 32.0, 1.0, 1.0, 1.0))
+                # scale-aware steps: proper length t/32 in every direction
+                g0 = numeric_g4(mod)(t, x[i:i + 1], y[i:i + 1], z[i:i + 1])
+                h = [t / 32.0] + [t / 32.0 / math.sqrt(g0[k, k, 0, 0, 0])
+                                  for k in (1, 2, 3)]
+                g, dg, ddg = fd_jets(numeric_g4(mod), p, h)
             geo = Geo(g, dg, ddg)
             obs = dict(point=list(p), par=par)
             if name == "Schwarzschild_isotropic":
